@@ -1,11 +1,14 @@
 #!/bin/sh
-# tools/try_seed.sh <patch.diff> : apply a seeded change to /repo, run every quick check, show which report, undo.
+# tools/try_seed.sh <patch.diff> : apply a seeded change to a scratch copy of /repo's package (outside /repo and
+# /verif), run every quick check against the copy (MABSTAT_REPO), show which checks report, remove the copy.
+# The evidence files written by this run describe the scratch copy; re-run the checks afterwards to refresh them.
 cd "$(dirname "$0")/.." || exit 2
-P=$1
-if [ -n "$(git -C /repo status --porcelain)" ]; then echo "/repo is not clean"; exit 2; fi
-git -C /repo apply --3way "$P" >/dev/null 2>&1 || git -C /repo apply "$P" || { echo "patch does not apply"; exit 2; }
-tools/run_all.sh quick | grep -v "rc=0"
+P=$(readlink -f "$1")
+S=$(mktemp -d /tmp/seedtest.XXXXXX)
+cp -r /repo/mabwiser "$S/mabwiser"
+( cd "$S" && patch -s -p1 < "$P" ) || { echo "patch does not apply"; rm -rf "$S"; exit 2; }
+MABSTAT_REPO="$S" tools/run_all.sh quick | grep -v "rc=0"
 for q in $(seq -w 1 20); do
   grep -A3 "^VIOLATION" .cache/runall/C$q.quick.out | grep "  rule" | cut -c1-240 | sort -u | head -3 | sed "s/^/C$q/"
 done
-git -C /repo reset -q --hard HEAD
+rm -rf "$S"
